@@ -104,6 +104,30 @@ func (g *G) genDoc(did string, auth []int) *didtypes.DIDDocument {
 	if g.chance("service", 20) {
 		doc.Services = []*didtypes.Service{{Id: "svc1", Type: "LinkedDomains", ServiceEndpoint: "https://example.org"}}
 	}
+	if g.chance("many-methods", g.bias("big-doc", 4)) {
+		// a long verificationMethod list; in half of the cases one entry (often the last) is
+		// malformed, which stateless validation has to notice wherever it sits
+		n := 8 + g.intn("extra-methods", 24)
+		bad := -1
+		if g.chance("malformed-method", 50) {
+			bad = n - 1 - g.intn("malformed-from-end", 4)
+		}
+		for i := 0; i < n; i++ {
+			ki := g.intn("extra-method-key", 6)
+			vm := &didtypes.VerificationMethod{Id: fmt.Sprintf("%s#x%d", did, i), Type: es256k2019, Controller: did, PublicKeyBase58: base58.Encode(keys[ki].Pub)}
+			if i == bad {
+				switch g.weighted("malformation", "key", 2, "type", 1, "id", 1) {
+				case "key":
+					vm.PublicKeyBase58 = "0OIl"
+				case "type":
+					vm.Type = ""
+				default:
+					vm.Id = did + "#"
+				}
+			}
+			doc.VerificationMethods = append(doc.VerificationMethods, vm)
+		}
+	}
 	return doc
 }
 
